@@ -50,7 +50,8 @@ impl JoinHandle {
         ensures r matches Ok(x) ==> self.outcome() == Some(x), r is Err ==> self.outcome() is None
     { unimplemented!() }
 }
-enum Color { Green, Yellow, Cyan, Red, Magenta }
+#[derive(Clone, Copy)]
+enum Color { Green, Yellow, Cyan, Red, Magenta }      // (termcolor::Color is Copy)
 trait Printer {
     fn print_single_banner_line(&mut self, banner_text : &str, banner_color : Color, path : &str, Tracked(out): Tracked<&mut Out>)
         ensures final(out).log == old(out).log.push(OutEvent::Banner(banner_text@, path@));
@@ -128,7 +129,7 @@ spec fn errors(hs: Seq<Handle>, k: int) -> Seq<WorkError>
 spec fn all_joined(hs: Seq<Handle>, k: int) -> bool { forall|j: int| 0 <= j < k ==> (#[trigger] hs[j]).1.outcome() is Some }
 
 //@ extract build.rs fn build tail /let mut work_errors = Vec::new\(\);/
-//@ props C04 C20 C02 C05 C01
+//@ props C04 C20 C02 C05 C01 C18 C07
 //@ sig fn join_all<PrinterType : Printer>(handles: Vec<(Option<Ticket>, JoinHandle)>, mut elements: Elements, printer : &mut PrinterType, Tracked(out): Tracked<&mut Out>) -> (res: Result<(), BuildError>)
 //@ addarg * /printer\.(print_single_banner_line|print|error)|elements\.history\.write_rule_history|elements\.current_file_states\.(insert_blob|to_file)/ Tracked(out)
 //@ retype 1 /let mut work_errors = Vec::new\(\);/ => let mut work_errors : Vec<WorkError> = Vec::new();
@@ -149,7 +150,7 @@ spec fn all_joined(hs: Seq<Handle>, k: int) -> bool { forall|j: int| 0 <= j < k 
         !all_joined(handles@, handles@.len() as int) ==> res matches Err(BuildError::Weird),
         // for EVERY finished thread, in spawn order: exactly one status line per target that matches what was done ('Built' iff the
         // command ran, else the per-target resolution), the rule's history written back iff it succeeded, its blob put back;
-        // nothing for failed or cancelled rules; then the table is written                                                        //# O-F-banners-history-table [C20,C04,C02,C01]
+        // nothing for failed or cancelled rules; then the table is written                                                        //# O-F-banners-history-table [C20,C04,C02,C01,C18,C07]
         all_joined(handles@, handles@.len() as int) ==> final(out).log == old(out).log + expected(handles@, handles@.len() as int) + seq![OutEvent::TableWrite],
         // exactly one error per failed rule, in order; success iff there is none                                                 //# O-F-one-error [C04]
         all_joined(handles@, handles@.len() as int) ==> (res is Ok <==> errors(handles@, handles@.len() as int).len() == 0),
